@@ -351,11 +351,25 @@ impl CharSet for Utf8CharSet {
         if first < 0x80 {
             return Ok(Some(char::from(first)))
         }
+        // Only well-formed UTF-8 (RFC 3629) is accepted: no stray
+        // continuation octets, no overlong forms, no surrogates and nothing
+        // beyond U+10FFFF. This also makes the unchecked conversions below
+        // sound.
+        if !(0xC2..=0xF4).contains(&first) {
+            return Err(CharSetError)
+        }
         let second = match iter.next() {
             Some(ch) => ch,
             None => return Err(CharSetError),
         };
-        if first < 0xC0 || second < 0x80 {
+        let (low, high) = match first {
+            0xE0 => (0xA0, 0xBF),
+            0xED => (0x80, 0x9F),
+            0xF0 => (0x90, 0xBF),
+            0xF4 => (0x80, 0x8F),
+            _ => (0x80, 0xBF)
+        };
+        if second < low || second > high {
             return Err(CharSetError)
         }
         if first < 0xE0 {
@@ -370,7 +384,7 @@ impl CharSet for Utf8CharSet {
             Some(ch) => ch,
             None => return Err(CharSetError)
         };
-        if third < 0x80 {
+        if !(0x80..=0xBF).contains(&third) {
             return Err(CharSetError)
         }
         if first < 0xF0 {
@@ -386,7 +400,7 @@ impl CharSet for Utf8CharSet {
             Some(ch) => ch,
             None => return Err(CharSetError)
         };
-        if first > 0xF7 || fourth < 0x80 {
+        if !(0x80..=0xBF).contains(&fourth) {
             return Err(CharSetError)
         }
         Ok(Some(unsafe {
